@@ -102,8 +102,11 @@ def run_scenario(chk, sc, cfgseed, as_string=False, flavour="sched", workers=Non
     d = chk.tmp_reuse()
     os.makedirs(d)
     p1, p2, out = os.path.join(d, "first"), os.path.join(d, "second"), os.path.join(d, "out")
-    reg = gamma.write_plotfile(p1, ap1, cfg_)
-    gamma.write_plotfile(p2, ap2, cfg_, reg)
+    # one pair in four has level-header rows that are not the extrema of the data: the output's rows are assembled from the INPUTS' rows
+    stale = (lambda lv, mins, maxs: ({b: [v - 0.5 for v in r] for b, r in mins.items()}, {b: [v + 0.25 for v in r] for b, r in maxs.items()})) \
+        if cfgseed % 4 == 1 else None
+    reg = gamma.write_plotfile(p1, ap1, cfg_, mm_override=stale)
+    gamma.write_plotfile(p2, ap2, cfg_, reg, mm_override=stale)
     A1, A2 = alpha.abstract(p1, reg), alpha.abstract(p2, reg)
     if alpha.wellformed(A1) or alpha.wellformed(A2):
         raise core.MachineryError("gamma/alpha self-check failed")
